@@ -10,7 +10,8 @@ def inexact_type(array):
 
 def is_linalg_type(array):
     try:
-        return (np.can_cast(array, np.dtype("complex")) or
-                np.can_cast(array, float))
+        dtype = np.asarray(array).dtype
+        return (np.can_cast(dtype, np.dtype("complex")) or
+                np.can_cast(dtype, float))
     except TypeError:
         return False
